@@ -49,8 +49,8 @@ MANIFEST = {
             "Correspondence: the real open_indexed / get_interval_sequences (both code paths) / __getitem__ / get_contig_lengths / "
             "written .fai text / Genome.from_file / multi-chunk create_index on temporary files vs the Lean model, the Lean spec and "
             "a Python oracle; exhaustive over length x width x every interval.",
-    "note": "File I/O is modelled as a byte list; the fast (string-encoded chromosome) interval path is corresponded, its arithmetic is "
-            "not traced; CRLF is outside the property.",
+    "note": "File I/O is modelled as a byte list; the fast (string-encoded chromosome) interval path's arithmetic is traced too and "
+            "proved identical to the scalar path's (fast_path_same); CRLF is outside the property.",
     "technique": "Lean 4 proof (induction over wrapped lines) + symbolic tracing of the offset arithmetic + exhaustive small-scope differential correspondence",
     "design": "§6 C17",
 }
@@ -58,7 +58,8 @@ MANIFEST = {
 # ---------------------------------------------------------------- symbolic trace of the row/offset arithmetic -> Gen/C17.lean
 
 _TRACED = []
-_KERNELS = ["trSeek", "trReadLen", "trRowLen", "trNDel", "trStartMod", "trNRows", "trBytesToRead"]
+_KERNELS = ["trSeek", "trReadLen", "trRowLen", "trNDel", "trStartMod", "trNRows", "trBytesToRead",
+            "trFastSeek", "trFastReadLen", "trFastNDel", "trFastStartMod", "trFastRowLen"]
 _PARAMS = "(a b rlen offset lenc lenb : Int)"
 # what the traced expressions are on the tree the proofs were written for (used only if tracing fails)
 _FALLBACK = {
@@ -67,6 +68,11 @@ _FALLBACK = {
     "trRowLen": "(((((Int.fdiv b lenc) * lenb) + (Int.fmod b lenc)) - (((Int.fdiv a lenc) * lenb) + (Int.fmod a lenc))) - ((Int.fdiv b lenc) - (Int.fdiv a lenc)))",
     "trNDel": "((Int.fdiv b lenc) - (Int.fdiv a lenc))",
     "trStartMod": "(Int.fmod a lenc)",
+    "trFastSeek": "(offset + (((Int.fdiv a lenc) * lenb) + (Int.fmod a lenc)))",
+    "trFastReadLen": "((((Int.fdiv b lenc) * lenb) + (Int.fmod b lenc)) - (((Int.fdiv a lenc) * lenb) + (Int.fmod a lenc)))",
+    "trFastNDel": "((Int.fdiv b lenc) - (Int.fdiv a lenc))",
+    "trFastStartMod": "(Int.fmod a lenc)",
+    "trFastRowLen": "(b - a)",
     "trNRows": "(Int.fdiv ((rlen + lenc) - 1) lenc)",
     "trBytesToRead": "((((Int.fdiv ((rlen + lenc) - 1) lenc) - 1) * lenb) + (rlen - (((Int.fdiv ((rlen + lenc) - 1) lenc) - 1) * lenc)))",
 }
@@ -189,6 +195,56 @@ def _trace_kernels():
             np.empty = real_empty
     except Exception:
         pass
+    # the fast path (string-encoded chromosomes): column arithmetic on the looked-up index table
+    try:
+        import bionumpy.io.indexed_fasta as M
+
+        class Table:
+            def __getitem__(self, i):
+                return types.SimpleNamespace(characters_per_line=var("lenc"), line_length=var("lenb"), start=var("offset"),
+                                             length=var("rlen"))
+
+        class FakeIdx:
+            @staticmethod
+            def from_entry_tuples(t):
+                return Table()
+
+        class EncL:
+            def get_labels(self):
+                return ["x"]
+
+        class ChromL:
+            encoding = EncL()
+
+            def raw(self):
+                return np.array([0])
+
+        class IvsL:
+            chromosome = ChromL()
+            start, stop = var("a"), var("b")
+
+        o = types.SimpleNamespace()
+        o._index = {"x": {"lenb": 1, "rlen": 1, "lenc": 1, "offset": 1}}
+        o._f_obj = None
+        real_idx = M.FastaIdx
+        M.FastaIdx = FakeIdx
+        Sym.sum = lambda self, *a, **k: 0        # only sizes the pre-allocated output
+        loc = None
+        try:
+            M.IndexedFasta._get_interval_sequences_fast(o, IvsL())
+        except NotTraceable as e:
+            loc = _frame_locals(e.__traceback__, "_get_interval_sequences_fast")
+        finally:
+            M.FastaIdx = real_idx
+            del Sym.sum
+        if loc is not None:
+            out["trFastSeek"] = text(loc["read_starts"])
+            out["trFastReadLen"] = text(loc["read_lengths"])
+            out["trFastNDel"] = text(loc["n_rows"])
+            out["trFastStartMod"] = text(loc["start_mods"])
+            out["trFastRowLen"] = text(loc["lengths"])
+    except Exception:
+        pass
     return out
 
 
@@ -199,7 +255,8 @@ def regenerate():
            "`IndexedFasta.get_interval_sequences` / `__getitem__` row/offset arithmetic (executed on symbolic index values `rlen offset",
            "lenc lenb` and interval ends `a b` with a recording file object): the position passed to `seek`, the length passed to",
            "`read`, the row length the code claims, the number of newline positions it deletes, the start column, the row count and",
-           "the bytes read for a whole contig. Do not edit. -/",
+           "the bytes read for a whole contig; `trFast*` = the same quantities of the vectorised path `_get_interval_sequences_fast`",
+           "(string-encoded chromosomes), traced on symbolic columns of the looked-up index table. Do not edit. -/",
            "set_option linter.unusedVariables false", "namespace Gen.C17", ""]
     for k in _KERNELS:
         out.append(f"def {k} {_PARAMS} : Int :=\n  {tr.get(k, _FALLBACK[k])}")
@@ -305,6 +362,11 @@ def cases(tier, rng):
             yield {"op": "fetch", "recs": recs, "ivs": ivs, "supplied": rng.random() < 0.3, "string": rng.random() < 0.5}
             yield {"op": "index", "recs": recs}
             yield {"op": "contig", "recs": recs, "supplied": False}
+    # 2b. files larger than the reader's default chunk (5,000,000 bytes), >= 2 records inside a non-final chunk
+    yield _large_case(rng, 4, 1_700_000)
+    if big:
+        yield _large_case(rng, 9, 1_300_000)
+        yield _large_case(rng, 3, 2_600_000)
     # 3. random multi-record files
     for _ in range(1500 if big else 120):
         # one file in four is several hundred bytes long (offsets beyond one line / one small chunk)
@@ -320,13 +382,36 @@ def cases(tier, rng):
             cand = [a + 1, n] + [k for k in range(a + 1, n + 1) if k % r["w"] in (0, 1, r["w"] - 1)]
             ivs.append({"name": name_of(r), "a": a, "b": rng.choice(cand) if rng.random() < 0.7 else rng.randint(a + 1, n)})
         yield {"op": "fetch", "recs": recs, "ivs": ivs, "supplied": rng.random() < 0.3, "string": rng.random() < 0.5}
+        # string-encoded chromosomes whose label order / label set differs from the file order
+        yield {"op": "fetch", "recs": recs, "ivs": ivs, "supplied": False, "string": True,
+               "label_order": rng.choice(["sorted", "reversed", "rotated", "file"]), "all_labels": rng.random() < 0.5}
         if rng.random() < (1.0 if big else 0.5):
-            yield {"op": "genome", "recs": recs}
+            yield {"op": "genome", "recs": recs, "sort_names": rng.random() < 0.5}
         if rng.random() < 0.6:
             yield {"op": "index_chunked", "recs": recs, "chunk": rng.choice([16, 24, 40, 64, 100, 200])}
 
 
+def _large_case(rng, n_recs, rec_len):
+    """a FASTA larger than the reader's default 5,000,000-byte chunk, several records per chunk (described by a seed, the
+    sequences are regenerated from it)"""
+    return {"op": "index_large", "seed": rng.randrange(10 ** 6), "n": n_recs, "len": rec_len, "w": rng.choice([60, 70, 80]),
+            "recs": [{"h": "large", "seq": "A", "w": 1}]}
+
+
+def _large_recs(c):
+    r = np.random.RandomState(c["seed"])
+    names = ["chr%d" % (i + 1) for i in range(c["n"])]
+    out = []
+    for i, nm in enumerate(names):
+        n = c["len"] + int(r.randint(0, 1000))
+        seq = np.array(list(b"ACGT"), dtype=np.uint8)[r.randint(0, 4, n)].tobytes().decode()
+        out.append({"h": nm + (" desc %d" % i if i % 2 else ""), "seq": seq, "w": c["w"]})
+    return out
+
+
 def nontrivial(c):
+    if c["op"] == "index_large":
+        return True
     recs = c["recs"]
     if len(recs) >= 2 or any(" " in r["h"] for r in recs):
         return True
@@ -351,10 +436,77 @@ def _write(c, supplied=False):
     return d, p
 
 
+def _genome_ivs(c):
+    """one interval per record (taken in reverse file order), ending on / next to a line break where possible"""
+    out = []
+    for x in c["recs"][::-1]:
+        n, w = len(x["seq"]), x["w"]
+        b = min(n, max(1, (n // w) * w)) if n >= w else n
+        out.append((min(b - 1, w - 1 if w <= b else 0), b))
+    return out
+
+
+def _natural(names):
+    import re
+    return sorted(names, key=lambda t: [int(u) if u.isdigit() else u for u in re.split(r"(\d+)", t)])
+
+
+def _labels(c):
+    """label set / order of the string encoding of the interval chromosomes: the names used, in an order that need not be
+    the file order; optionally all names of the file"""
+    used = list(dict.fromkeys(x["name"] for x in c["ivs"]))
+    names = [name_of(r) for r in c["recs"]] if c.get("all_labels") else used
+    order = c.get("label_order", "sorted")
+    if order == "sorted":
+        return sorted(names)
+    if order == "reversed":
+        return names[::-1] if c.get("all_labels") else sorted(names, reverse=True)
+    if order == "rotated":
+        return names[1:] + names[:1]
+    return names
+
+
+def _impl_large(c):
+    import bionumpy as bnp
+    from bionumpy.datatypes import Interval
+    recs = _large_recs(c)
+    d, p = _write({"recs": recs})
+    try:
+        f = bnp.open_indexed(p)                 # the library's create_index with its real default chunk size
+        rows = []
+        for line in open(p + ".fai").read().split("\n"):
+            if line:
+                cols = line.split("\t")
+                rows.append([cols[0]] + [int(x) for x in cols[1:]])
+        lengths = [[k, int(v)] for k, v in f.get_contig_lengths().items()]
+        ivs = _large_ivs(c, recs)
+        iv = Interval.from_entry_tuples(ivs)
+        got = [r.to_string() for r in f.get_interval_sequences(iv)]
+        import hashlib
+        whole = [[k, hashlib.sha1(f[k].to_string().encode()).hexdigest()] for k in list(f.keys())[::2]]
+        return {"rows": rows, "lengths": lengths, "fetched": got, "whole": whole, "size": os.path.getsize(p)}
+    finally:
+        shutil.rmtree(d, ignore_errors=True)
+
+
+def _large_ivs(c, recs):
+    r = np.random.RandomState(c["seed"] + 1)
+    out = []
+    for x in recs:
+        n, w = len(x["seq"]), x["w"]
+        a = int(r.randint(0, n - 300))
+        out.append((name_of(x), a, a + int(r.randint(1, 250))))
+        out.append((name_of(x), n - w - 3, n))
+        out.append((name_of(x), (n // w - 1) * w, (n // w) * w))
+    return out
+
+
 def _impl(c):
     import bionumpy as bnp
     from bionumpy.datatypes import Interval
     op = c["op"]
+    if op == "index_large":
+        return _impl_large(c)
     d, p = _write(c, supplied=c.get("supplied", False))
     try:
         if op == "index":
@@ -386,18 +538,28 @@ def _impl(c):
             return {"rows": rows}
         if op == "contig":
             f = bnp.open_indexed(p)
-            return [[k, f[k].to_string()] for k in f.keys()]
+            held = dict(f.items())                                   # all contigs fetched first ...
+            again = {k: f[k] for k in reversed(list(f.keys()))}     # ... and once more in the opposite order
+            out = [[k, v.to_string()] for k, v in held.items()]     # only now looked at
+            if [[k, again[k].to_string()] for k in held] != out:
+                return {"err": "second-fetch-differs"}
+            return out
         if op == "fetch":
             f = bnp.open_indexed(p)
             ivs = c["ivs"]
             iv = Interval.from_entry_tuples([(x["name"], x["a"], x["b"]) for x in ivs])
             if c.get("string"):
                 from bionumpy.encodings.string_encodings import StringEncoding
-                labels = sorted({x["name"] for x in ivs})
-                iv = bnp.replace(iv, chromosome=bnp.as_encoded_array([x["name"] for x in ivs], StringEncoding(labels)))
-            return [r.to_string() for r in f.get_interval_sequences(iv)]
+                iv = bnp.replace(iv, chromosome=bnp.as_encoded_array([x["name"] for x in ivs], StringEncoding(_labels(c))))
+            first = f.get_interval_sequences(iv)
+            # a second, different fetch before the first result is looked at (results must not share storage)
+            other = f.get_interval_sequences(iv[::-1])
+            out = [r.to_string() for r in first]
+            if [r.to_string() for r in other] != out[::-1]:
+                return {"err": "second-fetch-differs"}
+            return out
         if op == "genome":
-            g = bnp.Genome.from_file(p)
+            g = bnp.Genome.from_file(p, sort_names=bool(c.get("sort_names")))
             sizes = g.get_genome_context().chrom_sizes
             gs = g.read_sequence()
             seqs = [[k, gs.extract_chromsome(k).to_string()] for k in sizes]
@@ -405,7 +567,13 @@ def _impl(c):
             n = len(r["seq"])
             iv = Interval.from_entry_tuples([(name_of(r), 0, n), (name_of(r), n // 2, n)])
             sub = [x.to_string() for x in gs.extract_intervals(iv)]
-            return {"sizes": [[k, int(v)] for k, v in sizes.items()], "seqs": seqs, "sub": sub}
+            # intervals over all records, encoded by the genome (its chromosome order, not the file's)
+            tup = [(name_of(x), a, b) for x, (a, b) in zip(c["recs"][::-1], _genome_ivs(c))]
+            gi = g.get_intervals(Interval.from_entry_tuples(tup))
+            enc = [x.to_string() for x in gs[gi]]
+            srt = sorted(sizes) if c.get("sort_names") else None
+            return {"sizes": sorted([k, int(v)] for k, v in sizes.items()), "seqs": sorted(seqs), "sub": sub, "enc": enc,
+                    "order_ok": srt is None or list(sizes) == _natural(list(sizes))}
     finally:
         shutil.rmtree(d, ignore_errors=True)
 
@@ -428,6 +596,16 @@ def oracle(c):
     if op == "index":
         return {"rows": true_index(recs), "lengths": [[name_of(r), len(r["seq"])] for r in recs],
                 "fai": "".join("\t".join(str(x) for x in row) + "\n" for row in true_index(recs))}
+    if op == "index_large":
+        import hashlib
+        big_recs = _large_recs(c)
+        by2 = {name_of(r): r for r in big_recs}
+        size = len(file_text(big_recs))
+        if size <= 5_000_000:
+            return SKIP
+        return {"rows": true_index(big_recs), "lengths": [[name_of(r), len(r["seq"])] for r in big_recs],
+                "fetched": [by2[n]["seq"][a:b] for n, a, b in _large_ivs(c, big_recs)],
+                "whole": [[name_of(r), hashlib.sha1(r["seq"].encode()).hexdigest()] for r in big_recs[::2]], "size": size}
     if op == "index_chunked":
         return {"rows": true_index(recs)}
     if op == "contig":
@@ -441,8 +619,9 @@ def oracle(c):
             return SKIP
         r = recs[-1]
         n = len(r["seq"])
-        return {"sizes": [[name_of(x), len(x["seq"])] for x in recs], "seqs": [[name_of(x), x["seq"].upper()] for x in recs],
-                "sub": [r["seq"][0:n].upper(), r["seq"][n // 2:n].upper()]}
+        return {"sizes": sorted([name_of(x), len(x["seq"])] for x in recs), "seqs": sorted([name_of(x), x["seq"].upper()] for x in recs),
+                "sub": [r["seq"][0:n].upper(), r["seq"][n // 2:n].upper()],
+                "enc": [x["seq"][a:b].upper() for x, (a, b) in zip(recs[::-1], _genome_ivs(c))], "order_ok": True}
     return SKIP
 
 
@@ -466,13 +645,23 @@ def model_request(c):
 def agree_model(c, got, m):
     if c["op"] == "genome" and isinstance(got, dict) and "seqs" in got:
         got = dict(got, seqs=[[k, s.upper()] for k, s in got["seqs"]], sub=[s.upper() for s in got["sub"]])
+        got = {k: got[k] for k in ("sizes", "seqs", "sub")}
+        m = {"sizes": sorted(m["sizes"]), "seqs": sorted(m["seqs"]), "sub": m["sub"]}
     return core.canon(got) == core.canon(m)
 
 
 def agree(c, got, exp):
     if c["op"] == "genome" and isinstance(got, dict) and "seqs" in got:
-        got = dict(got, seqs=[[k, s.upper()] for k, s in got["seqs"]], sub=[s.upper() for s in got["sub"]])
+        got = dict(got, seqs=[[k, s.upper()] for k, s in got["seqs"]], sub=[s.upper() for s in got["sub"]],
+                   enc=[s.upper() for s in got["enc"]])
     return core.canon(got) == core.canon(exp)
+
+
+def agree_spec(c, s, exp):
+    if c["op"] == "genome":
+        return core.canon({"sizes": sorted(s["sizes"]), "seqs": sorted(s["seqs"]), "sub": s["sub"]}) == \
+            core.canon({k: exp[k] for k in ("sizes", "seqs", "sub")})
+    return core.canon(s) == core.canon(exp)
 
 
 def finding_key(c, got, exp):
@@ -485,6 +674,8 @@ def finding_key(c, got, exp):
         if all(gl[0] == el[0] and gl[1] == row[3] for gl, el, row in zip(got["lengths"], exp["lengths"], exp["rows"])):
             return "contig_lengths:bases-per-line"
         return "contig_lengths:wrong"
+    if op == "index_large":
+        return "index_large:" + ("wrong-row" if isinstance(got, dict) and got.get("rows") != exp["rows"] else "wrong-fetch")
     if op == "genome":
         if isinstance(got, dict) and got.get("err") == "other:ValueError" and any(" " in r["h"] for r in c["recs"]):
             return "genome_from_fasta:description-breaks-fai"
